@@ -221,9 +221,20 @@ def generate(contract, cfgname, registry, repo, D=None):
     # lemmas about the spec functions (proved in their own small context)
     for (nm, hyps, goal, axs) in contract.spec_lemmas(mk()):
         st.oblig.append(E.Obligation('lemma: ' + nm, goal, list(hyps), len(st.reg.terms), 'lemma', axs))
+    # composite kernels: spec-view chain over the callee applications (vc/dataflow.py)
+    svmap = []
+    if getattr(contract, 'dataflow', False):
+        from . import dataflow
+        from contracts import spec as _S
+        svmap = dataflow.chain(st, _S.CAUSAL, mk)
     # postconditions
     cg = mk(True); cg.ret = retval
     posts = contract.ensures(cg)
+    if svmap:
+        from . import dataflow
+        from contracts import spec as _S
+        for label, f in posts:
+            for (j, lo, hi) in cg.skolems: st.assume += dataflow.post_instances(st, _S.CAUSAL, svmap, f, j)
     if contract.skolem_for(cfgname):
         for (j, lo, hi) in cg.skolems:
             st.add_defs(contract.spec_instances(cg, j))
@@ -360,7 +371,8 @@ class Callee:
             for d_ in range(1, Dc): st.assume += list(con.spec_instances(sub2, z3.IntVal(d_)))
             st.assume += list(con.concrete_instances(sub2, Dc))
         st.assume += list(con.extra_axioms(sub2))
-        for label, f in con.ensures(sub2): st.assume.append(f)
+        sub2.ensured = [f for label, f in con.ensures(sub2)]
+        st.assume += sub2.ensured
         sub2.assumed = True
         # return value
         rv = con.returns
